@@ -245,7 +245,11 @@ fn fields(a: &Value) -> Fields {
         h: geti(a, "h") as u8,
         mi: geti(a, "mi") as u8,
         s: geti(a, "s") as u8,
-        ns: geti(a, "ns") as u32,
+        // "nsw" carries a nanosecond argument beyond what TLC's 32-bit integers can hold (the logged "ns" is then 2^31-1: equally invalid)
+        ns: match a.get("nsw") {
+            Some(w) => w_to_i128(w) as u32,
+            None => geti(a, "ns") as u32,
+        },
     }
 }
 
